@@ -834,7 +834,23 @@ pub fn check_failure_reporting(n: usize, data: &[f64], tol: Option<f64>, acc: &m
     acc.inc("evaluations");
     let key = |c: &str| format!("C16/{c}/{}/tol={}", mkey(n, data), tol.map(bits).unwrap_or_else(|| "None".into()));
     let case = matrix_case(n, data, tol);
-    match call_decompose(n, data, tol) {
+    let observed = call_decompose(n, data, tol);
+    // the zero pivot product is a property of the factor, which does not depend on the stability setting: a matrix reported
+    // as ZeroDet without the test is ZeroDet with it (both failure conditions at once: ZeroDet takes precedence)
+    if tol.is_some() {
+        if let DecompObs::ZeroDet = call_decompose(n, data, None) {
+            acc.inc("zerodet_precedence_judged");
+            if !matches!(observed, DecompObs::ZeroDet | DecompObs::Panic(_)) {
+                acc.violate(
+                    key("zero-pivot-product-yields-ZeroDet-with-the-test-on"),
+                    "a Cholesky factor with an exactly zero pivot product yields the ZeroDet error",
+                    format!("ZeroDet without the stability test, but {} with matrix_stability_test = {:?}", match &observed { DecompObs::Ok(_) => "Ok", DecompObs::Unstable => "Unstable", _ => "?" }, tol),
+                    case.clone(),
+                );
+            }
+        }
+    }
+    match observed {
         DecompObs::Panic(p) => {
             // the property does not promise panic-freedom for arbitrary matrices; record only
             acc.inc("panics_recorded");
@@ -1326,6 +1342,23 @@ fn check_vec_constructors<const D: usize>(a: &[f64; D], acc: &mut Acc) {
     }
     if !eq(Vector::<f64, D>::from_slice(a).get_elements()) {
         bad("from_slice");
+    }
+    // a Vec of exactly D elements however it was built: spare capacity, grown by push, shrunk by truncate
+    {
+        let mut spare: Vec<f64> = Vec::with_capacity(2 * D + 3);
+        spare.extend_from_slice(a);
+        let mut pushed: Vec<f64> = vec![];
+        for x in a.iter() {
+            pushed.push(*x);
+        }
+        let mut cut: Vec<f64> = a.iter().cloned().chain([1.0, 2.0, 3.0]).collect();
+        cut.truncate(D);
+        for (name, v) in [("from_vec(with spare capacity)", spare), ("from_vec(grown by push)", pushed), ("from_vec(truncated)", cut)] {
+            match std::panic::catch_unwind(std::panic::AssertUnwindSafe(|| Vector::<f64, D>::from_vec(v).get_elements())) {
+                Ok(e) if eq(e) => {}
+                _ => bad(name),
+            }
+        }
     }
     let v = Vector::<f64, D>::from_array(*a);
     if v.len() != D {
